@@ -21,6 +21,12 @@ def contexts(run, **kw):
         line = 'ctx %d %d %s' % (n, m, ' '.join(map(str, rows)))
         with guard(run, 'Context(...) of a valid table', [line]):
             pc = PyCtx(tab)
+        cells = n * m
+        run.count('input size: ' + ('<= 4 cells' if cells <= 4 else '<= 9 cells' if cells <= 9 else '<= 16 cells' if cells <= 16 else
+                                    '<= 36 cells' if cells <= 36 else '<= 100 cells' if cells <= 100 else
+                                    'wide (max side >= 64)' if max(n, m) >= 64 else '> 100 cells'))
+        fill = sum(bin(r).count('1') for r in rows) / float(cells)
+        run.count('input fill: ' + ('empty' if fill == 0 else 'full' if fill == 1 else '< 1/3' if fill < 1 / 3 else '< 2/3' if fill < 2 / 3 else '>= 2/3'))
         if pending is not None:
             run.driver.ask(pending[1].line)
             yield pending
